@@ -9,6 +9,21 @@ import srv
 PATH_OPS = ["OPEN_DIR", "STAT_FILE", "OPEN_FILE", "GET_DIR_SIZE", "CREATE_FILE", "DELETE_FILE", "MKDIR", "RMDIR"]
 
 
+def announced_worlds(rng, nodes, proto):
+    """WRITE_FILE frames that announce more payload than is sent - up to the largest 32-bit counts - where the bytes that do
+    arrive are themselves well-formed requests: they are payload, never commands."""
+    import binsrv
+    pt = binsrv.Proto(proto)
+    inner = pt.encode("STAT_FILE", path="/") + pt.encode("OPEN_DIR", path="/") + pt.encode("READ_DIR")
+    worlds = []
+    for aw in (True, False):
+        for pre in ([], [{"op": "CREATE_FILE", "path": "/up-announce.bin"}, {"op": "WRITE_FILE", "plen": 9, "chunk": "an0"}]):
+            for ann in [len(inner) + 1, 70000, 0x7FFFFFFF, 0x80000000, 0x80000001, 0xFFFFFFFF]:
+                worlds.append({"name": "announce-%s-%d-%d" % (aw, len(pre), ann), "aw": aw, "nodes": nodes, "probe": True,
+                               "conns": [{"id": 1, "reqs": pre + [{"op": "WRITE_FILE", "payloadHex": inner.hex(), "chunk": "annp", "announce": ann}]}]})
+    return worlds
+
+
 def truncation_worlds(rng, nodes):
     """Every truncation point of every request kind, after a short state-setting prefix."""
     worlds = []
@@ -68,6 +83,7 @@ def run(tier, seed, replay=None):
         # 3. every truncation point of every request kind
         tnodes = srv.basic_world(rng)
         worlds += truncation_worlds(rng, tnodes)
+        worlds += announced_worlds(rng, tnodes, proto)
 
         # 4. code -> model: seeded random sessions over all opcodes
         n = 40 if tier == "quick" else 400
